@@ -6,7 +6,7 @@ structural boundary, random cuts; thorough adds two more) to a fresh evhttp thro
 (harness/h_http.c).  Oracles: (1) the list of requests handed to the generic callback equals the reference
 parse up to the first message the RFC requires to reject (tri-state: MAY/SHOULD => either outcome),
 (2) all segmentations of one stream give identical requests, responses and close behaviour."""
-import random
+import os, random
 import vlib
 from ref import http9112 as ref
 from ref import httporacle as ho
@@ -17,6 +17,9 @@ RULE = ("request streams (directed catalogue + grammar pipelines of 1-4 messages
         "executed under 4 (quick) / 6 (thorough) segmentations against a fresh evhttp; non-trivial = the reference parser finds at least one "
         "complete message or a must-reject message in the stream; distinct = hash of (options, stream bytes)")
 SIZES = dict(quick=1100, thorough=55000)
+# VERIF_THOROUGH_DIV=n divides the thorough case counts (to try the thorough command on a loaded machine); default 1
+_DIV = max(1, int(os.environ.get("VERIF_THOROUGH_DIV", "1") or "1"))
+SIZES["thorough"] = max(SIZES["quick"], SIZES["thorough"] // _DIV)
 BATCH = 4000
 
 REG = dict(category="exploration",
